@@ -545,7 +545,16 @@ impl<'a> Constraint<'a> {
                 let (arg, remainder, qualifier, _) = parse_qualifiers(arg, remainder)?;
                 querystring = remainder;
                 if arg.starts_with("?") {
-                    Self::DataVariable(&arg[1..], qualifier)
+                    if Self::closed(querystring) || querystring.starts_with(&['{', '}', '|']) {
+                        Self::DataVariable(&arg[1..], qualifier)
+                    } else {
+                        //a key variable with an operator and value (this is how KeyValueVariable is serialised)
+                        let (opstr, remainder, _) = get_arg(querystring)?;
+                        let (value, remainder, valuetype) = get_arg(remainder)?;
+                        querystring = remainder;
+                        let operator = parse_dataoperator(opstr, value, valuetype)?;
+                        Self::KeyValueVariable(&arg[1..], operator, qualifier)
+                    }
                 } else {
                     let set = arg;
                     let (key, remainder, _) = get_arg(remainder)?;
